@@ -224,7 +224,7 @@ def r_accept(db, rep):
             c = strip(lp.get("cond")) if lp.get("cond") is not None else None
             ok = False
             if c is not None and c["k"] == "BinaryOperator" and c["op"] in ("<", "<=", "!="):
-                p = access_path(f, c["rhs"])
+                p = resolved_path(f, c["rhs"])
                 if p is not None and p[-1] == "tsize":
                     ok = True
             if not ok:
